@@ -85,6 +85,8 @@ def sched_writer_states(h, d, tier):
         if st == "KILLED_SPILL" and not aged:
             continue          # a fresh Open of a file with a hot journal is refused outright (C09 covers it)
         r = lockrun.Runner(h, c06.fresh(d, "st-%d" % i), "sep")
+        if st == "KILLED_SPILL" and sync_off:
+            r.writer_uri = "psow=0"          # 4096-byte sectors: the journal header's sector holds copies of the header
         try:
             if aged:
                 # a long-lived handle: it has read (and cached) before, a commit happened since
